@@ -17,7 +17,7 @@ eq_refl eq_symm eq_trans deepcopy_eq eq_iff_same_function eq_implies_same_functi
 eq_same_durations_iff eq_total_duration eq_detects_operator_count eq_detects_basis
 eq_detects_operator_or_identifier eq_detects_duration eq_detects_term slice_spec slice_entries
 slice_wf slice_full index_spec slice_concat_roundtrip'''.split()
-PINS = ['pinJoinEqualSegments', 'pinHashArray']
+PINS = ['pinJoinEqualSegments', 'pinHashArray', 'pinConcatenateHamiltonian']
 GEN_SITES = ['const:pulse_sequence.__eq__']
 COMPONENTS = ['parse_hamiltonian', 'join_segments', 'pulse_eq', 'slice']
 RULES = ['correspondence: _parse_Hamiltonian (default / given / mixed identifiers), '
@@ -247,6 +247,20 @@ def check_equality(ctx, case):
         T = gens.build(v2)
         if (S == A) and (A == T) and not (S == T):
             probs.append('equality not transitive')
+        # two writings with the same number of segments whose redundant cut sits in different places
+        if n >= 2:
+            g2 = int((g + 1 + rng.integers(0, n - 1)) % n)
+            if desc['dt'][g2] > 0:
+                rep2 = np.concatenate((np.arange(g2), [g2, g2], np.arange(g2 + 1, n)))
+                w = dict(desc)
+                w['c_coeffs'] = np.asarray(desc['c_coeffs'])[:, rep2]
+                w['n_coeffs'] = np.asarray(desc['n_coeffs'])[:, rep2]
+                f3 = rng.uniform(0.2, 0.8)
+                w['dt'] = np.concatenate((desc['dt'][:g2], [desc['dt'][g2]*f3, desc['dt'][g2]*(1 - f3)],
+                                          desc['dt'][g2 + 1:]))
+                W = gens.build(w)
+                if not (S == W and W == S and W == A):
+                    probs.append('two re-segmentations with equally many segments compare unequal')
         # the same segment written as a run of k = 3..5 equal pieces
         k = int(rng.integers(3, 6))
         repk = np.concatenate((np.arange(g), [g]*k, np.arange(g + 1, n)))
